@@ -299,6 +299,38 @@ def build(ctx):
             ctx.prop('alias/%s/p%d/successor-wins-when-set' % (old, i), o.state.pc, z3.And(new_set, z3.Not(unchanged)), mva, rp)
             ctx.prop('alias/%s/p%d/no-effect-when-alias-unset' % (old, i), o.state.pc, z3.And(z3.Not(old_set), z3.Not(unchanged)), mva, rp)
 
+    # ------------------------------------------------------------------ 3b. `--config key=val`: every key is stored as set, and the keys with a derived meaning re-derive it
+    ov = eng.find('override_value', self_ty='Config', file=CT)
+    old_state = (eng.lenient, eng.inline_only, list(eng.stubs))
+    eng.lenient = True
+    eng.inline_only = [re.compile(r'override_value$')]
+    eng.stubs = []
+    eng.stub(r'Config::set_(heuristics|merge_imports|fn_args_layout|hide_parse_errors|version)$',
+             lambda e, s_, a, c: (s_.trace.append(('derive', c.func.rsplit('::', 1)[-1])), UNIT)[1], 'Config::set_* (the derivations decided in parts 1 and 3) observed')
+
+    def parse_stub(e, s_, a, c):
+        v = e.fresh_of_type(s_, re.search(r'parse::<(.*)>$', c.func).group(1), 'parsed')
+        s_.trace.append(('parsed', v))
+        return Enum('Result', 0, {0: Tup([v])})
+    eng.stub(r'<impl str>::parse::<', parse_stub, 'str::parse::<T> = Ok(an arbitrary value of T)')
+    derive_of = {'merge_imports': 'set_merge_imports', 'fn_args_layout': 'set_fn_args_layout', 'hide_parse_errors': 'set_hide_parse_errors', 'version': 'set_version'}
+    for w in list(WIDTHS) + ['max_width', 'use_small_heuristics']:
+        derive_of[w] = 'set_heuristics'
+    try:
+        for key in sorted(lay):
+            st = State()
+            cfgref, cv = make_config(eng, st)
+            outs = ctx.check_outcomes(eng.run(ov, [cfgref, StrVal(s=key), eng.fresh_str('val')], st), 'override_value')
+            for i, o in enumerate(outs):
+                if o.kind != 'ret':
+                    continue            # the parse failure panics by design (expect)
+                hooks = [t[1] for t in o.state.trace if t[0] == 'derive']
+                want = [derive_of[key]] if key in derive_of else []
+                ctx.prop('override_value/%s/p%d/the-derived-options-are-recomputed' % (key, i), o.state.pc, z3.BoolVal(hooks != want), [], rp, twin=False, meta={'hooks': hooks, 'want': want})
+                ctx.prop('override_value/%s/p%d/the-option-counts-as-set' % (key, i), o.state.pc, z3.Not(config_was_set(eng, o.state, cfgref, key)), [], rp, twin=False)
+    finally:
+        eng.lenient, eng.inline_only, eng.stubs = old_state
+
     # ------------------------------------------------------------------ 4. config file name order in one directory
     eng.lenient = True
     eng.inline_only = [re.compile(r'get_toml_path')]
@@ -612,7 +644,24 @@ def cli_findings():
     vals, r = print_config(['--config', 'max_width=50,fn_call_width=80,chain_width=30', '--print-config', 'current', '.'], cwd=d, env_home=d)
     if vals.get('fn_call_width') != '50' or vals.get('chain_width') != '30':
         found.setdefault('other', []).append('override clamp: fn_call_width=%s chain_width=%s' % (vals.get('fn_call_width'), vals.get('chain_width')))
-    # aliases
+    # every width option on its own, from the command line and from a file, in two modes: an explicit value above max_width is clamped
+    for w in WIDTHS:
+        for mode in ('Default', 'Max'):
+            vals, r = print_config(['--config', 'max_width=80,use_small_heuristics=%s,%s=150' % (mode, w), '--print-config', 'current', '.'], cwd=d, env_home=d)
+            if vals.get(w) != '80':
+                found.setdefault('other', []).append('--config max_width=80,use_small_heuristics=%s,%s=150 gives %s=%s (expected 80)' % (mode, w, w, vals.get(w)))
+        open(os.path.join(d, 'rustfmt.toml'), 'w').write('max_width = 80\n%s = 150\n' % w)
+        vals, r = print_config(['--print-config', 'current', '.'], cwd=d, env_home=d)
+        if vals.get(w) != '80':
+            found.setdefault('other', []).append('rustfmt.toml max_width=80, %s=150 gives %s=%s (expected 80)' % (w, w, vals.get(w)))
+        os.remove(os.path.join(d, 'rustfmt.toml'))
+    # aliases: from a file and from the command line
+    vals, r = print_config(['--config', 'hide_parse_errors=true', '--print-config', 'current', '.'], cwd=d, env_home=d)
+    if vals.get('show_parse_errors') != 'false':
+        found.setdefault('other', []).append('--config hide_parse_errors=true leaves show_parse_errors=%s' % vals.get('show_parse_errors'))
+    vals, r = print_config(['--config', 'fn_args_layout=Compressed', '--print-config', 'current', '.'], cwd=d, env_home=d)
+    if vals.get('fn_params_layout') != '"Compressed"' and vals.get('fn_params_layout') != 'Compressed':
+        found.setdefault('other', []).append('--config fn_args_layout=Compressed leaves fn_params_layout=%s' % vals.get('fn_params_layout'))
     open(os.path.join(d, 'rustfmt.toml'), 'w').write('hide_parse_errors = true\n')
     vals, r = print_config(['--print-config', 'current', '.'], cwd=d, env_home=d)
     if vals.get('show_parse_errors') != 'false':
